@@ -55,6 +55,8 @@ def gen_cases(rng, tier):
         stored = {k: rng.choice([1, 2, "x", "y"]) for k in pool if rng.random() < 0.7}
         ks = [rng.choice(pool) for _ in range(rng.randint(1, 6))]
         cases.append({"kind": "many", "regs": regs, "stored": stored, "keys": ks, "via": rng.choice(["get_many", "get_many", "set_many", "delete_many"])})
+        cases.append({"kind": "manyw", "regs": regs, "stored": stored, "dels": [rng.choice(pool) for _ in range(rng.randint(0, 5))],
+                      "sets": sorted({rng.choice(pool) for _ in range(rng.randint(0, 4))})})
     for cmd in CMDS:
         for how in ["full", "cmd", "disabling", "disabling_cmd", "setup", "prefix", "enabled", "other_cmd"]:
             if how == "prefix" and cmd == "ping":
@@ -166,7 +168,7 @@ def run_impl(case):
         cache = Cache()
         log = []
         try:
-            if kind in ("route", "many"):
+            if kind in ("route", "many", "manyw"):
                 backs = []
                 for i, p in enumerate(case["regs"]):
                     b = cache.setup("mem://?check_interval=0", prefix=p)
@@ -181,6 +183,16 @@ def run_impl(case):
                         return {"backend": None, "err": None}
                     touched = sorted({i for i, _ in log})
                     return {"backend": touched[0] if len(touched) == 1 else -1 - len(touched), "err": None}
+                if kind == "manyw":
+                    for k, v in case["stored"].items():
+                        await cache.set(k, v)
+                    before = [[i, [[k, b.store[k][1]] for k in b.store]] for i, b in enumerate(backs)]
+                    if case["dels"]:
+                        await cache.delete_many(*case["dels"])
+                    if case["sets"]:
+                        await cache.set_many({k: "new:" + k for k in case["sets"]})
+                    after = [[i, [[k, b.store[k][1]] for k in b.store]] for i, b in enumerate(backs)]
+                    return {"before": before, "after": after}
                 # many
                 route = {}
                 for k, v in case["stored"].items():
@@ -300,6 +312,10 @@ def to_coq(case, obs):
         stores = [(Nat(i), [(S(k), val_to_coq(v)) for k, v in kvs]) for i, kvs in obs["stores"]]
         out = [None if v == "<default>" else Some(val_to_coq(v)) for v in obs["out"]]
         return C("CMany", regs, stores, [S(k) for k in case["keys"]], out)
+    if kind == "manyw":
+        regs = [(S(p), Nat(i)) for i, p in enumerate(case["regs"])]
+        st = lambda x: [(Nat(i), [(S(k), val_to_coq(v)) for k, v in kvs]) for i, kvs in x]
+        return C("CManyW", regs, st(obs["before"]), [S(k) for k in case["dels"]], [(S(k), val_to_coq("new:" + k)) for k in case["sets"]], st(obs["after"]))
     if kind == "disabled":
         cmd = case["cmd"]
         k = C("KGet") if cmd == "get" else C("KGetMany", Nat(2)) if cmd == "get_many" else C("KPattern") if cmd in ("scan", "get_match") \
@@ -333,6 +349,9 @@ def nontrivial(case, obs):
     k = case["kind"]
     if k == "route":
         return sum(1 for p in set(case["regs"]) if case["key"].startswith(p)) >= 2
+    if k == "manyw":
+        ks = case["dels"] + case["sets"]
+        return len({max((p for p in case["regs"] if x.startswith(p)), key=len) for x in ks}) >= 2
     if k == "many":
         return len({max((p for p in case["regs"] if x.startswith(p)), key=len) for x in case["keys"]}) >= 2
     if k == "disabled":
